@@ -42,6 +42,16 @@ def matrix_programs():
               side + "function sq(int n) -> int { for (int i = 0; i < 10; i = tick(\"inc\", i + 1)) { if (i == n) { return i * i; } } return 0 - 1; }\nfunction main() -> void { echo(sq(2)); echo(sq(3)); echo(sq(0)); echo(sq(20)); }",
               side + "function fw(int n) -> int { int i = 0; while (tick(\"cond\", i) < 10) { if (i == n) { return i + 100; } i = i + 1; } return 0; }\nfunction main() -> void { echo(fw(1)); echo(fw(0)); }",
               side + "function nest(int n) -> int { for (int i = 0; i < 3; i = tick(\"o\", i + 1)) { for (int j = 0; j < 3; j = tick(\"n\", j + 1)) { if (i * 3 + j == n) { return i * 10 + j; } } } return 99; }\nfunction main() -> void { echo(nest(4)); echo(nest(0)); echo(nest(8)); echo(nest(9)); }"]
+    # "int values can widen to long in assignments and calls": every place a value lands — a long variable, a long parameter, the
+    # result of a function declared '-> long' — and every use of that result without storing it first
+    for retexpr, argt in (("d * 86400", "int d"), ("2000000000", "int d"), ("d", "int d"), ("d + 1", "int d"), ("-d * 70000", "int d")):
+        f = "function f(%s) -> long { return %s; }\n" % (argt, retexpr)
+        for use in ("echo(f(30000));", "echo(f(30000) * 1000);", "echo(f(30000) + f(30000));", "echo(f(2000000000) + 2000000000);",
+                    "long v = f(30000); echo(v + v); echo(v * 100000);", "echo(f(30000) * 1000 * 1000);", "echo(f(1500000000) + f(1500000000) + 1L);",
+                    "echo(f(2147483647) + 1);", "long w = 0L; w = f(2147483647); echo(w + 1);", "echo(-f(2147483647) - 2);"):
+            progs.append(f + "function main() -> void { %s }" % use)
+    progs.append("function g(long a) -> long { return a + a; }\nfunction main() -> void { int big = 2000000000; echo(g(big)); echo(g(big) + big); long l = big; echo(l + big); l = big; echo(l * 2); }")
+    progs.append("function h(int a) -> long { if (a > 0) { return a; } return a * 2; }\nfunction main() -> void { echo(h(2000000000) + h(2000000000)); echo(h(-2000000000)); echo(h(-1500000000) * 2); }")
     return progs
 
 
